@@ -27,7 +27,7 @@ Not decided: that the two twins produce the same *values* (R13.1, R13.3 and the 
 the statement), README requirement clauses.
 """
 from .. import common, witness
-from .c13_traits import run_grouped
+from .c13_traits import grouped_jobs, merge_tables
 
 PRELUDE = '#include "c13_archetypes.hpp"\n'
 
@@ -41,7 +41,6 @@ def _diagnostic_groups(stderr):
     Context lines are assigned by look-ahead: g++ prints an include stack ("In file included
     from") in front of a *note* as well, so a run of context lines belongs to the previous error
     if the next located line is a note and to the next error otherwise."""
-    import re
     groups = []
     cur = None
     pend = []
@@ -400,8 +399,22 @@ def collect(ck, tier):
     nshards = 16 if tier == 'quick' else 64
 
     # -- R13.2a ---------------------------------------------------------------------------------
+    # all three batteries are planned first and compiled in one pool
     tws, ops, archs = twin_witnesses(tier)
-    tres = run_grouped('c13twins-' + tier, PRELUDE, tws, stds, nshards, battery=status_battery)
+    rws, convs, iters = range_witnesses(tier)
+    batt = std_alloc_range_batteries(tier)
+    tjobs = grouped_jobs('c13twins-' + tier, PRELUDE, tws, stds, nshards, battery=status_battery)
+    rjobs = grouped_jobs('c13ranges-' + tier, PRELUDE, rws, stds, nshards, battery=status_battery)
+
+    def std_job(name, ws, comp, std):
+        return lambda: status_battery(name, PRELUDE, ws, compilers=(comp,), stds=(std,))
+    sjobs = [std_job(name, ws, comp, std) for std in reversed(list(stds))
+             for comp in ('g++', 'clang++') for name, ws in batt]
+    alljobs = [('t', j) for j in tjobs] + [('r', j) for j in rjobs] + [('s', j) for j in sjobs]
+    done = common.pmap(lambda kj: (kj[0], kj[1]()), alljobs)
+    tres = merge_tables(r for k, r in done if k == 't')
+    rres = merge_tables(r for k, r in done if k == 'r')
+    sres = [r for k, r in done if k == 's']
     by_tag = {w.tag: w for w in tws}
     invalid = {}     # archetype -> [cfg]
     for cfg, r in sorted(tres.items()):
@@ -470,16 +483,7 @@ def collect(ck, tier):
                 + '; '.join('%s: %s' % (o, ','.join(a)) for o, a in sorted(both_fail.items())))
 
     # -- R13.2b ---------------------------------------------------------------------------------
-    rws, convs, iters = range_witnesses(tier)
-    rres = run_grouped('c13ranges-' + tier, PRELUDE, rws, stds, nshards, battery=status_battery)
-    tables = [rres]
-    batt = std_alloc_range_batteries(tier)
-
-    def one(job):
-        (name, ws), comp, std = job
-        return status_battery(name, PRELUDE, ws, compilers=(comp,), stds=(std,))
-    for r in common.pmap(one, [(b, comp, std) for b in batt for comp in ('g++', 'clang++') for std in stds]):
-        tables.append(r)
+    tables = [rres] + sres
     status = {}    # (allocator, conversion, op, kind) -> {cfg: (status, msg)}
     allw = {w.tag: w for w in rws}
     for _, ws in batt:
